@@ -590,6 +590,77 @@ Section Durability.
         intros G ch _ HL. apply (located_frame s); auto. }
       split; [assumption|]. split; [reflexivity | assumption].
   Qed.
+  (* ---- with compression on and no failing compress phase, a backup whose compress phase is over is
+     no longer there as a plain file (so, by `located`, its chunk is under F.gz or was removed by
+     clean-up) -- however the compress phases overlap with later rotations *)
+  Definition compressed_inv (s : state) : Prop :=
+    Forall (fun p => (1 <= snd p)%nat -> fs_get (fst p) (s_fs s) = None) (s_posts s).
+
+  Definition is_gzip_fail (e : event) : bool := match e with EGzipFail _ _ => true | _ => false end.
+
+  Lemma in_set_phase k v l g ph :
+    In (g, ph) (set_phase k v l) -> In (g, ph) l \/ (ph = v /\ exists old, nth_error l k = Some (g, old)).
+  Proof.
+    revert k; induction l as [|[f p] l IH]; intros [|k]; simpl; try tauto.
+    - intros [E|H]; [inversion E; subst; right; split; [reflexivity | exists p; reflexivity] | left; right; assumption].
+    - intros [E|H]; [left; left; assumption|]. apply IH in H as [H|H]; [left; right; assumption | right; assumption].
+  Qed.
+
+  Lemma step_compressed s acc used e :
+    c_compress c = true -> is_gzip_fail e = false ->
+    Inv s acc used -> NoDup (next_used c s used e) ->
+    compressed_inv s -> compressed_inv (step c s e).
+  Proof.
+    intros Hc Hnf [Hfp [ts [last [chunks [cur [Hposts [Hbk [Hused [Hw [[Hloc Hcur] _]]]]]]]]]] Hnd HJ.
+    unfold compressed_inv in *. rewrite Forall_forall in HJ.
+    assert (Hname : forall g ph, In (g, ph) (s_posts s) -> exists t, In t ts /\ g = bname t).
+    { intros g ph Hin. apply (in_map fst) in Hin. rewrite Hposts in Hin. apply in_map_iff in Hin as [t [E Ht]]. eauto. }
+    destruct e as [r now|k|k junk|k b|rot0' now0']; [| | discriminate | |].
+    - (* write *)
+      cbn [step]. unfold write. cbn [next_used] in Hnd.
+      destruct (shall_rotate c (s_rot s) now (s_size s + rlen r)) eqn:SR.
+      + unfold rotate, fs_exists. rewrite Hcur, Hbk, bname_nonempty. cbn [andb s_fs s_fp s_backup s_size s_rot s_posts s_removed].
+        unfold fs_rename. rewrite Hcur. unfold fs_append. rewrite get_put_same.
+        apply Forall_forall. intros [g ph] Hin Hph. cbn [fst snd] in *.
+        apply in_app_or in Hin as [Hin|[E|[]]]; [|inversion E; subst; lia].
+        destruct (Hname g ph Hin) as [t [Ht ->]].
+        assert (Htl : t <> last).
+        { intro; subst t. rewrite Hused in Hnd. apply nodup_app_l in Hnd. apply NoDup_remove_2 in Hnd. apply Hnd. rewrite app_nil_r. assumption. }
+        rewrite get_put_other by (apply bname_ne_file). rewrite get_put_other by (apply bname_ne_file).
+        rewrite get_put_other by (intro E; apply bname_inj in E; contradiction).
+        rewrite get_remove_other by (apply bname_ne_file). apply (HJ (bname t, ph) Hin Hph).
+      + rewrite Hfp. unfold fs_append. rewrite Hcur. cbn [s_fs s_posts].
+        apply Forall_forall. intros [g ph] Hin Hph. cbn [fst snd] in *.
+        destruct (Hname g ph Hin) as [t [Ht ->]].
+        rewrite get_put_other by (apply bname_ne_file). apply (HJ (bname t, ph) Hin Hph).
+    - (* compress phase *)
+      cbn [step]. destruct (nth_error (s_posts s) k) as [[f [|ph0]]|] eqn:Nk; try (apply Forall_forall; exact HJ).
+      cbn [s_fs s_posts]. unfold compress_file. rewrite Hc. cbn [negb].
+      assert (Hf : exists t, In t ts /\ f = bname t) by (apply nth_error_In in Nk; eapply Hname; eassumption).
+      destruct Hf as [t [Ht ->]].
+      assert (Hwt : List.length t = width) by (rewrite Forall_forall in Hw; apply Hw; rewrite Hused; apply in_or_app; left; assumption).
+      apply Forall_forall. intros [g ph] Hin Hph. cbn [fst snd] in *.
+      assert (Hg : exists u, In u ts /\ g = bname u).
+      { apply in_set_phase in Hin as [Hin|[_ [old Hin]]]; [eapply Hname; eassumption | apply nth_error_In in Hin; eapply Hname; eassumption]. }
+      destruct Hg as [u [Hu ->]].
+      assert (Hwu : List.length u = width) by (rewrite Forall_forall in Hw; apply Hw; rewrite Hused; apply in_or_app; left; assumption).
+      destruct (name_eq_dec u t) as [->|Hut].
+      + destruct (fs_get (bname t) (s_fs s)) as [[cnt d]|] eqn:G; [apply get_remove_same | assumption].
+      + assert (Hold : fs_get (bname u) (s_fs s) = None).
+        { apply in_set_phase in Hin as [Hin|[_ [old Hin]]]; [apply (HJ (bname u, ph) Hin Hph)|].
+          rewrite Nk in Hin. inversion Hin as [E0]. apply bname_inj in E0. congruence. }
+        destruct (fs_get (bname t) (s_fs s)) as [[cnt d]|]; [|assumption].
+        rewrite get_remove_other by (intro E; apply bname_inj in E; contradiction).
+        rewrite get_put_other by (apply bname_ne_gz; congruence). assumption.
+    - (* delete phase *)
+      cbn [step]. destruct (nth_error (s_posts s) k) as [[f [|[|ph0]]]|] eqn:Nk; try (apply Forall_forall; exact HJ).
+      cbn [s_fs s_posts]. apply Forall_forall. intros [g ph] Hin Hph. cbn [fst snd] in *.
+      apply get_remove_all_none.
+      apply in_set_phase in Hin as [Hin|[_ [old Hin]]]; [apply (HJ (g, ph) Hin Hph)|].
+      rewrite Nk in Hin. inversion Hin; subst. apply nth_error_In in Nk. apply (HJ (g, 1%nat) Nk). cbn; lia.
+    - (* restart *)
+      cbn [step]. unfold init. rewrite Hcur. cbn [s_fs s_posts]. apply Forall_forall. exact HJ.
+  Qed.
 End Durability.
 
 Definition init_content (c : config) (fs0 : fsys) : content :=
@@ -846,4 +917,34 @@ Proof.
     destruct (fs_exists (c_file c) (s_fs s) && (0 <? Z.of_nat (List.length (s_backup s)))); cbn [s_fp s_fs];
       unfold fs_append; rewrite get_put_same; exists [], 0%nat; rewrite get_put_same; auto.
   - rewrite Hfp. cbn [s_fs]. unfold fs_append. rewrite Hcur. exists cur, d. rewrite get_put_same. auto.
+Qed.
+
+Lemma run_compressed c width ic : c_delim c <> [] -> c_compress c = true ->
+  forall h s acc used,
+    existsb is_gzip_fail h = false ->
+    Inv c width ic s acc used ->
+    Forall (fun t => List.length t = width) (nows h) ->
+    stamps_distinct c s used h ->
+    compressed_inv s -> compressed_inv (run c s h).
+Proof.
+  intros Hd Hc. induction h as [|e h IH]; intros s acc used Hnf HI Hw Hnd HJ; [assumption|].
+  cbn [existsb] in Hnf. apply orb_false_iff in Hnf as [Hnf1 Hnf2].
+  rewrite nows_cons in Hw. apply Forall_app in Hw as [Hw1 Hw2]. destruct Hnd as [Hnd1 Hnd2].
+  cbn [run fold_left]. eapply (IH _ (acc ++ written [e]) (next_used c s used e)); [assumption | | assumption | assumption |].
+  - apply step_inv; assumption.
+  - eapply step_compressed; eassumption.
+Qed.
+
+Lemma all_backups_compressed c width fs0 rot0 now0 h :
+  c_delim c <> [] -> current_plain c fs0 ->
+  stamps_ok c width (init c fs0 rot0 now0) now0 h ->
+  c_compress c = true -> existsb is_gzip_fail h = false ->
+  let s := run c (init c fs0 rot0 now0) h in
+  forall F ph, In (F, ph) (s_posts s) -> (1 <= ph)%nat -> fs_get F (s_fs s) = None.
+Proof.
+  intros Hd Hp [Hw Hnd] Hc Hnf s F ph Hin Hph. inversion Hw as [|? ? Hw0 Hw1]; subst.
+  assert (HJ : compressed_inv (run c (init c fs0 rot0 now0) h)).
+  { eapply (run_compressed c (List.length now0) (init_content c fs0) Hd Hc h); [assumption | apply init_inv; [assumption | reflexivity] | assumption | assumption |].
+    unfold compressed_inv, init. destruct (fs_get (c_file c) fs0) as [[cnt d]|]; constructor. }
+  unfold compressed_inv in HJ. rewrite Forall_forall in HJ. apply (HJ (F, ph) Hin Hph).
 Qed.
